@@ -47,13 +47,118 @@ DEFAULT_POLICY = {
 }
 
 
-def instantiate(t: JTemplate, policy: Optional[Dict[str, bool]] = None) -> str:
+def pascal(n: str) -> str:
+    """the generator's to_pascal_case as documented: words split at '_', each capitalised (rest lower-cased)"""
+    return "".join(w[:1].upper() + w[1:].lower() for w in n.split("_"))
+
+
+class Model:
+    """A model for instantiating loops over a known population: `lists` maps the source text of an iterable (filters
+    stripped, `{% set %}` aliases followed) to a list of elements (dicts attribute -> text/int, in DECLARATION order);
+    `calls` maps a template-global name to the element key its result is taken from when it is applied to an attribute
+    of an element (e.g. to_wrapper_cpp_type(fcp, signal.type) -> element['cpp']); `values` maps expression source to text.
+    Filters understood on model lists: sort(attribute=A[, reverse=true]) (ascending by the element's A, as jinja2 specifies),
+    reverse, list.  Anything else falls back to the single opaque unrolling."""
+
+    def __init__(self, lists: Dict[str, List[Dict[str, object]]], calls: Optional[Dict[str, str]] = None, values: Optional[Dict[str, str]] = None, text_filters: Optional[Dict[str, Callable[[str], str]]] = None):
+        self.lists, self.calls, self.values = lists, calls or {}, values or {}
+        self.text_filters = text_filters or {"to_pascal_case": pascal, "upper": str.upper, "lower": str.lower}
+
+
+def instantiate(t: JTemplate, policy: Optional[Dict[str, bool]] = None, model: Optional[Model] = None) -> str:
     """Abstract instance of a template.  `{% set x = e %}` substitutes e for x in later expressions (single
-    assignment in scope); `{% macro m(a) %}...{% endmacro %}` bodies are expanded at `{{ m(x) }}` with a := x."""
+    assignment in scope); `{% macro m(a) %}...{% endmacro %}` bodies are expanded at `{{ m(x) }}` with a := x.
+    With a `model`, loops over a modelled population are unrolled over its elements (see Model)."""
     pol = dict(DEFAULT_POLICY)
     if policy:
         pol.update(policy)
     out: List[str] = []
+    bound: Dict[str, Dict[str, object]] = {}  # loop variable -> model element (dynamic scope of the expansion)
+    env_nodes: Dict[str, object] = {}  # set-variable -> the expression node it was set to
+    loopinfo: List[Dict[str, object]] = []
+
+    def model_elements(it, env):
+        """elements of a modelled iterable in iteration order, or None"""
+        if model is None:
+            return None
+        e = it
+        ops = []
+        hops = 0
+        while True:
+            if isinstance(e, J.Filter):
+                ops.append(e)
+                e = e.node
+                continue
+            if isinstance(e, J.Name) and e.name in env_nodes and hops < 4:
+                # a set-variable: continue with the expression it was set to (filters written in the set included)
+                e = env_nodes[e.name]
+                hops += 1
+                continue
+            base = subst_src(e, env)
+            if base not in model.lists and JTemplate.src(e) in model.lists:
+                base = JTemplate.src(e)
+            break
+        if base not in model.lists:
+            return None
+        els = list(model.lists[base])
+        for f in reversed(ops):
+            if f.name == "list":
+                continue
+            if f.name == "reverse":
+                els.reverse()
+                continue
+            if f.name == "sort":
+                attr, rev = None, False
+                for k in f.kwargs:
+                    if k.key == "attribute" and isinstance(k.value, J.Const):
+                        attr = k.value.value
+                    if k.key == "reverse" and isinstance(k.value, J.Const):
+                        rev = bool(k.value.value)
+                if f.args and isinstance(f.args[0], J.Const):
+                    rev = bool(f.args[0].value)
+                if attr is None or any(attr not in el for el in els):
+                    return None
+                els = sorted(els, key=lambda el: el[attr], reverse=rev)
+                continue
+            return None
+        return els
+
+    def model_text(c, env):
+        """concrete text of an expression over model elements, or None"""
+        if model is None:
+            return None
+        if isinstance(c, J.Const):
+            return str(c.value)
+        if isinstance(c, J.Getattr) and isinstance(c.node, J.Name) and c.node.name in bound and c.attr in bound[c.node.name]:
+            return str(bound[c.node.name][c.attr])
+        if isinstance(c, J.Getattr) and isinstance(c.node, J.Name) and c.node.name == "loop" and loopinfo and c.attr in loopinfo[-1]:
+            return str(loopinfo[-1][c.attr])
+        if isinstance(c, J.Filter) and c.name in model.text_filters and not c.args and not c.kwargs:
+            inner = model_text(c.node, env)
+            return model.text_filters[c.name](inner) if inner is not None else None
+        if isinstance(c, J.Call) and isinstance(c.node, J.Name) and c.node.name in model.calls:
+            for a in c.args:
+                if isinstance(a, J.Getattr) and isinstance(a.node, J.Name) and a.node.name in bound:
+                    key = model.calls[c.node.name]
+                    if key in bound[a.node.name]:
+                        return str(bound[a.node.name][key])
+        src = subst_src(c, env)
+        if src in model.values:
+            return model.values[src]
+        return None
+
+    def model_test(test, env):
+        """truth of a test over loop metadata of a modelled loop, or None"""
+        if model is None or not loopinfo:
+            return None
+        neg = False
+        e = test
+        while isinstance(e, J.Not):
+            neg, e = not neg, e.node
+        if isinstance(e, J.Getattr) and isinstance(e.node, J.Name) and e.node.name == "loop" and e.attr in ("last", "first"):
+            v = bool(loopinfo[-1][e.attr])
+            return (not v) if neg else v
+        return None
     macros: Dict[str, J.Macro] = {}
     for n in t.ast.find_all(J.Macro):
         macros[n.name] = n
@@ -73,6 +178,22 @@ def instantiate(t: JTemplate, policy: Optional[Dict[str, bool]] = None) -> str:
         for n in nodes:
             emit(n, env)
 
+    def resolve_cond(c, env, depth=0):
+        """`a if test else b` with a test the policy table decides -> the chosen branch; set-variables are followed"""
+        if depth > 4:
+            return c
+        if isinstance(c, J.Name) and c.name in env_nodes:
+            r = resolve_cond(env_nodes[c.name], env, depth + 1)
+            return r if r is not env_nodes[c.name] or isinstance(r, J.Const) else c
+        if isinstance(c, J.CondExpr):
+            key = subst_src(c.test, env)
+            v = pol.get(key, pol.get(JTemplate.src(c.test)))
+            if v is None and isinstance(c.test, J.Compare):
+                v = False  # same default as for {% if %}: an undecided test takes the else branch
+            if v is not None:
+                return resolve_cond(c.expr1 if v else c.expr2, env, depth + 1) if (c.expr1 if v else c.expr2) is not None else c
+        return c
+
     def emit_expr(c, env):
         if isinstance(c, J.Call) and isinstance(c.node, J.Name) and c.node.name in macros and not c.kwargs:
             m = macros[c.node.name]
@@ -83,7 +204,11 @@ def instantiate(t: JTemplate, policy: Optional[Dict[str, bool]] = None) -> str:
                     env2[pn] = subst_src(av, env)
                 emit_nodes(m.body, env2)
                 return
-        out.append(placeholder(subst_src(c, env)))
+        c = resolve_cond(c, env)
+        mt = model_text(c, env)
+        if mt is None and isinstance(c, J.Const) and isinstance(c.value, (str, int)) and not isinstance(c.value, bool):
+            mt = str(c.value)
+        out.append(mt if mt is not None else placeholder(subst_src(c, env)))
 
     def emit(n, env):
         if isinstance(n, J.Output):
@@ -93,10 +218,27 @@ def instantiate(t: JTemplate, policy: Optional[Dict[str, bool]] = None) -> str:
                 else:
                     emit_expr(c, env)
         elif isinstance(n, J.For):
-            emit_nodes(n.body, dict(env))
+            els = model_elements(n.iter, env)
+            if els is not None and isinstance(n.target, J.Name):
+                for i, el in enumerate(els):
+                    saved = bound.get(n.target.name)
+                    bound[n.target.name] = el
+                    loopinfo.append({"last": i == len(els) - 1, "first": i == 0, "index0": i, "index": i + 1, "length": len(els)})
+                    emit_nodes(n.body, dict(env))
+                    loopinfo.pop()
+                    if saved is None:
+                        bound.pop(n.target.name, None)
+                    else:
+                        bound[n.target.name] = saved
+            else:
+                loopinfo.append({})
+                emit_nodes(n.body, dict(env))
+                loopinfo.pop()
         elif isinstance(n, J.If):
             key = subst_src(n.test, env)
-            v = pol.get(key, pol.get(JTemplate.src(n.test)))
+            v = model_test(n.test, env) if loopinfo and loopinfo[-1] else None
+            if v is None:
+                v = pol.get(key, pol.get(JTemplate.src(n.test)))
             if v is None:
                 v = False
             if v:
@@ -114,6 +256,7 @@ def instantiate(t: JTemplate, policy: Optional[Dict[str, bool]] = None) -> str:
         elif isinstance(n, J.Assign):
             if isinstance(n.target, J.Name):
                 env[n.target.name] = subst_src(n.node, env)
+                env_nodes[n.target.name] = n.node
         elif isinstance(n, J.Macro):
             pass
         elif isinstance(n, (J.Template,)):
